@@ -45,7 +45,7 @@ def load_known(prop):
                 out["fixed"].append(line)
                 continue
             e = json.loads(line)
-            if e.get("property") == prop:
+            if e.get("property") == prop or (isinstance(e.get("property"), list) and prop in e["property"]):
                 out["findings"].append(e)
     return out
 
